@@ -34,6 +34,7 @@ def obligations(cx):
             if isinstance(fn, ast.FunctionDef):
                 for n in ast.walk(fn):
                     if isinstance(n, ast.While): whiles.append((path, fn.name, n.lineno))
+    cx.unknown_whiles = [w for w in whiles if w[1] != 'calculate_partial_fluxes']
     cx.ob("scan.only-known-while-loops", [], blit(all(fn == 'calculate_partial_fluxes' for _, fn, _ in whiles) and len(whiles) <= 1), kind='scan', found=str(whiles),
           statement="the only while loop of the package is the fixed-point iteration of calculate_partial_fluxes")
     for model in ('NRTL',):
@@ -177,9 +178,15 @@ def find_cycle(g):
 def native_checks(cx, results):
     """no variant could be established for some configuration: a failed proof is not a violation (DESIGN 2.9) - search for
     a non-terminating input natively under a call-count watchdog"""
-    if not cx.no_variant: return {}
+    unknown = getattr(cx, 'unknown_whiles', [])
+    if not cx.no_variant and not unknown: return {}
     from ..nativeio import native
-    corpus = native(dict(cmd='corpus', prop='C10', seed=getattr(cx, 'seed', 0), n=160 if cx.tier == 'quick' else 1200))
+    corpus = []
+    if cx.no_variant: corpus += native(dict(cmd='corpus', prop='C10', seed=getattr(cx, 'seed', 0), n=160 if cx.tier == 'quick' else 1200))
+    if unknown:
+        # a while loop outside the flux solver (no variant is known for it): process-level watchdog search for a run that does not end
+        cx.no_variant.append("while loop in %s" % ",".join(sorted({w[1] for w in unknown})))
+        corpus += native(dict(cmd='corpus', prop='C10', fn='proc_corpus', seed=getattr(cx, 'seed', 0), n=60 if cx.tier == 'quick' else 400))
     out = native(dict(cmd='check', prop='C10', cases=corpus), timeout=1800)
     viol = []
     for c, fails in zip(corpus, out):
